@@ -19,7 +19,7 @@ SIZES_G = [1, 2, 3, 4, 8, 12, 16, 24, 64, 72, 4096, 65536, 2147483647]
 SIZES_V = [1, 4, 12, 64, 72]
 ALIGNS_A = [64, 16, 1, 4096]
 POW2 = [1 << k for k in range(13)]          # 1..4096
-REPO_SRC = ["rkcommon/memory/malloc.cpp"]
+REPO_SRC = ["rkcommon/memory/malloc.cpp", "rkcommon/utility/demangle.cpp"]
 
 
 # ASan: requests above 256 MB are refused (null -> bad_alloc) instead of being mapped and shadow-poisoned
@@ -78,9 +78,16 @@ def pat(j, o):
     return (j * 131 + o * 7 + 1) % 251
 
 
-def l_op(l, f):
+MULTI_ARG = ("S", "I", "i")       # element types whose emplace uses a two-argument constructor
+
+
+def l_op(l, f, tag=None):
     """plain list model of a vector operation (token already split)"""
     if f[0] == "pb": return l + [int(f[2])]
+    if f[0] == "eb": return l + [1000 + int(f[2]) * 26 + int(f[3]) if tag in MULTI_ARG else int(f[3])]
+    if f[0] == "em":
+        pos = int(f[2]) % (len(l) + 1)
+        return l[:pos] + [1000 + int(f[3]) * 26 + int(f[4]) if tag in MULTI_ARG else int(f[4])] + l[pos:]
     if f[0] == "rs":
         n = int(f[2]); return l[:n] if n <= len(l) else l + [int(f[3])] * (n - len(l))
     if f[0] == "as": return [int(f[3])] * int(f[2])
@@ -193,9 +200,10 @@ def oracle(case, line, exact):
             parts = o.split("|")
             if parts[0] not in ("ok", "length_error", "bad_alloc"): return "outcome " + parts[0]
             if parts[0] == "ok":
+                tag = t[1] if k == "W" else None
                 if f[0] == "sw": la, lb = lb, la
-                elif f[1] == "a": la = l_op(la, f)
-                else: lb = l_op(lb, f)
+                elif f[1] == "a": la = l_op(la, f, tag)
+                else: lb = l_op(lb, f, tag)
             for nm, l, part in (("a", la, parts[1]), ("b", lb, parts[2])):
                 m = re.match(r"%s=(\d+),(\d+),(\d+),\[(.*)\]$" % nm, part)
                 if not m: return "malformed " + part[:40]
@@ -335,7 +343,8 @@ def gen_small_live(r, nlive, aligns=(1, 2, 4, 8, 16, 32, 64), sizes=range(0, 17)
 HUGE = [1 << 62, 1 << 63, M64 - 1, (1 << 63) - 1]
 
 
-def gen_vec(r, s, maxlen, maxn, fail):
+def gen_vec(r, s, maxlen, maxn, fail, emplace=0):
+    """emplace: 0 none, 1 emplace_back (modelled), 2 also emplace(pos, ...) (real back ends only)"""
     ops = []
     small = [0, 1, 2, 3, 4, 5, 7, 8, 9, 15, 16, 17, 31, 32, 33]
     vm = min(((1 << 63) - 1) // s, (M64 - 1) // s)
@@ -345,7 +354,9 @@ def gen_vec(r, s, maxlen, maxn, fail):
         n = min(n, maxn)
         x = r.randint(1, 250)
         c = r.random()
-        if c < 0.30: ops.append("pb:%s:%d" % (t, x))
+        if emplace and c < 0.12: ops.append("eb:%s:%d:%d" % (t, r.randint(2, 9), r.randint(1, 25)))
+        elif emplace == 2 and c < 0.20: ops.append("em:%s:%d:%d:%d" % (t, r.randint(0, 40), r.randint(2, 9), r.randint(1, 25)))
+        elif c < 0.30: ops.append("pb:%s:%d" % (t, x))
         elif c < 0.45: ops.append("rs:%s:%d:%d" % (t, n, x))
         elif c < 0.57: ops.append("rv:%s:%d" % (t, n))
         elif c < 0.69: ops.append("sh:%s" % t)
@@ -359,12 +370,14 @@ def gen_vec(r, s, maxlen, maxn, fail):
     return "V %d %d %s" % (s, fail, " ".join(ops))
 
 
-W_SIZEOF = {"s": 32, "v": 24, "i": 16}     # std::string / std::vector<int> / instrumented element (x86-64 libstdc++)
+W_SIZEOF = {"s": 32, "v": 24, "i": 16, "n": 32, "S": 32, "I": 24, "y": 24}
+W_TAGS = "svinSIy"   # wrapped std::string / wrapped std::vector<int> / instrumented / Node (initializer_list of itself) /
+                     # std::string itself / std::vector<int> itself / std::vector<rkcommon::utility::Any>   (x86-64 libstdc++ sizes)
 
 
-def gen_w(r, tag, maxlen, maxn, fail):
+def gen_w(r, tag, maxlen, maxn, fail, emplace=1):
     """a vector history on a NON-trivially-copyable element type (the model runs it with sizeof(T) only)"""
-    c = gen_vec(r, W_SIZEOF[tag], maxlen, maxn, fail).split()
+    c = gen_vec(r, W_SIZEOF[tag], maxlen, maxn, fail, emplace).split()
     return "W %s %s" % (tag, " ".join(c[2:]))
 
 
@@ -517,10 +530,12 @@ def run(ctx):
     typed = gen_typed(ctx.rng("typed"), ctx)
     rw = ctx.rng("nontrivial-elements")
     wvec, wbig = [], []
-    for i in range(ctx.pick(360, 2400)):
-        wvec.append(gen_w(rw, "svi"[i % 3], 30, 40, -1 if i % 4 else rw.randint(0, 8)))
-    for i in range(ctx.pick(240, 2400)):
-        wbig.append(gen_w(rw, "svi"[i % 3], 100, 400, -1))
+    for i in range(ctx.pick(490, 2800)):
+        wvec.append(gen_w(rw, W_TAGS[i % 7], 30, 40, -1 if i % 4 else rw.randint(0, 8), 1))
+    for i in range(ctx.pick(280, 2800)):
+        wbig.append(gen_w(rw, W_TAGS[i % 7], 100, 400, -1, 2))
+    for i in range(ctx.pick(100, 600)):       # trivially copyable elements with emplace_back / emplace as well
+        (vec_small if i % 2 else vec_big).append(gen_vec(rw, SIZES_V[i % 5], 30, 40, -1, 1 if i % 2 else 2))
     vec_big += wbig
     modelled = corpus + ["A"] + arith + typed + heap + vec_small + vec_fail + wvec
     real_ok = lambda c: not (c[0] in "HVW" and c.split()[2 if c[0] in "VW" else 1] != "-1")
@@ -584,7 +599,10 @@ def run(ctx):
                 "alive at once, pointer % align checked for each; V: random push_back/resize/reserve/shrink_to_fit/assign/clear/swap histories on two "
                 "AlignedVectors of element size 1,4,12,64,72 with a std::vector twin, some with one injected back-end failure, some with "
                 "requests around vector::max_size(); W: the same histories on AlignedVector<std::string> (short and long), <std::vector<int>> and a "
-                "lifetime-instrumented element (live-address registry, self pointer, constructed == destroyed at the end); T: the typed overload "
+                "lifetime-instrumented element (live-address registry, self pointer, constructed == destroyed at the end), on a Node type whose "
+                "initializer_list constructor accepts Nodes (a copy must preserve the depth), on std::string / std::vector<int> themselves and on "
+                "std::vector<rkcommon::utility::Any>, with emplace_back(args...) / emplace(pos, args...) through multi-argument constructors "
+                "(std::string(n, ch), std::vector<int>(n, v), a two-argument instrumented element) compared element-wise with a std::vector twin; T: the typed overload "
                 "alignedMalloc<T>(n, align) for sizeof(T) 1,4,8,12,72 x alignments 1..4096 (request bytes,align on the spy; pointer % align and full-extent "
                 "pattern on the real back ends); every case on 3 builds (spy / _mm_malloc+ASan / TBB).  non-trivial = G,I,P: operand > 1; "
                 "H: contains a free; V: the data pointer took >= 3 distinct values (or the long real-only histories)")
